@@ -188,6 +188,34 @@ def judge_tex(case, r):
             fails.append('the match on %r is highlighted nowhere (neither in place nor among the overlapping messages)' % f); break
     return fails
 
+def nested_cases(rng, n):
+    """a long multi-line match that contains / overlaps later matches near its beginning (the region must extend to the
+    end of the LONGEST match, not of the last one)"""
+    out = []
+    for _ in range(n):
+        nl = rng.randint(8, 16)
+        lines = [' '.join(rng.choice(['lorem', 'ipsum', 'dolor', 'sit', 'amet', '<b>', 'a&b']) for _ in range(rng.randint(1, 6))) for _ in range(nl)]
+        doc = '\n'.join(lines) + '\n'
+        starts = [0]
+        for l in lines:
+            starts.append(starts[-1] + len(l) + 1)
+        ctxl = rng.choice([0, 1, 2, 2, 5])
+        a = rng.randint(0, nl - 5)
+        span = rng.randint(ctxl + 2, max(ctxl + 2, nl - a - 1))
+        b = min(nl - 1, a + span)
+        o1 = starts[a] + rng.randint(0, max(0, len(lines[a]) - 1))
+        e1 = starts[b] + rng.randint(1, max(1, len(lines[b])))
+        ms = [(o1, e1 - o1)]
+        for _ in range(rng.randint(1, 2)):
+            la = rng.randint(a, min(b, a + 1))
+            o2 = max(o1 + rng.randint(0, 1), starts[la] + rng.randint(0, max(0, len(lines[la]) - 1)))
+            ms.append((o2, rng.choice([1, 2, 4])))
+        if rng.random() < 0.4:
+            lz = rng.randint(b, nl - 1)
+            ms.append((starts[lz] + rng.randint(0, max(0, len(lines[lz]) - 1)), 1))
+        ms = sorted(set((o, min(l, len(doc) - 1 - o)) for o, l in ms if o < len(doc) - 1))
+        out.append({'doc': doc, 'matches': ms, 'context': ctxl, 'msg': 'M x', 'sugg': [], 'link': False, 'url': None})
+    return out
 def run(ctx):
     rng = ctx.rng
     cases = []
@@ -196,8 +224,9 @@ def run(ctx):
         cases.append({'doc': doc, 'matches': gen_matches(rng, doc), 'context': rng.choice([-1, 0, 1, 2, 2, 5]),
                       'msg': 'M ' + rng.choice(HOSTILE), 'sugg': [rng.choice(HOSTILE) for _ in range(rng.randint(0, 3))],
                       'link': rng.random() < 0.5, 'url': rng.choice([None, 'http://x/' + rng.choice(HOSTILE), 'u"><script>x</script>', 'http://x/<br>\ny'])})
+    cases += nested_cases(rng, ctx.scale(40, 800))
     ctx.stats['_rule'] = ('plain-input files with HTML-special characters, empty lines, tabs, long lines x sets of in-range matches incl. overlapping, '
-                          'adjacent, nested, multi-line and zero-length ones x context -1/0/1/2/5, hostile text in messages and suggestions '
+                          'adjacent, nested, multi-line and zero-length ones, long multi-line matches with later matches near their beginning x context -1/0/1/2/5, hostile text in messages and suggestions '
                           '(subprocess --output html); report parsed with html.parser; non-trivial = at least 2 matches')
     results = ctx.pmap(one, cases, chunksize=1)
     for c, r in zip(cases, results):
